@@ -100,6 +100,12 @@ fn op_src(name: &str, t: String, rest: &[E]) -> String {
         "extendinc" => format!("{}.extend({}.each(|x| x + 1))", t, a[0]),
         "updateinc" => format!("{}.update({}, {}, |x| x + 1)", t, a[0], a[1]),
         "update" => format!("{}.update({}, {}, |x| (x, 0))", t, a[0], a[1]),
+        // the host (Rust) API, called by the native `kv_host` on the objects the script passes
+        m if m.starts_with("h_") => {
+            let mut all = vec![t.clone()];
+            all.extend(a.iter().cloned());
+            format!("kv_host('{}', {})", &m[2..], all.join(", "))
+        }
         m => call(m),
     }
 }
@@ -270,6 +276,7 @@ fn run_koto(src: &str, inputs: &[(&str, KValue)]) -> (Vec<String>, Outcome) {
             l2.borrow_mut().push(line);
             Ok(KValue::Null)
         });
+        prelude.add_fn("kv_host", host_call);
         prelude.add_fn("kv_out", move |ctx| {
             let a = ctx.args();
             let s = a.iter().map(real_tree).collect::<Vec<_>>().join(" ");
@@ -289,4 +296,78 @@ fn run_koto(src: &str, inputs: &[(&str, KValue)]) -> (Vec<String>, Outcome) {
         Ok(o) => (out, o),
         Err(p) => (out, Outcome::Panic(p)),
     }
+}
+
+
+// ---- the host-op alphabet: the Rust API an embedding application uses --------------------------------------
+
+fn host_index(v: &KValue) -> Option<usize> {
+    match v {
+        KValue::Number(KNumber::I64(i)) if *i >= 0 => Some(*i as usize),
+        _ => None,
+    }
+}
+
+/// `kv_host(name, target, args…)`: one call of the host API on the objects passed by the script
+fn host_call(ctx: &mut CallContext) -> koto_runtime::Result<KValue> {
+    let a = ctx.args();
+    let name = match a.first() {
+        Some(KValue::Str(s)) => s.as_str().to_string(),
+        _ => return runtime_error!("kv_host: name expected"),
+    };
+    let key = |v: &KValue| ValueKey::try_from(v.clone());
+    Ok(match (name.as_str(), &a[1..]) {
+        ("insert", [KValue::Map(m), k, v]) => {
+            m.insert(key(k)?, v.clone());
+            KValue::Null
+        }
+        ("remove", [KValue::Map(m), k]) => m.remove(key(k)?).unwrap_or(KValue::Null),
+        ("remove_path", [KValue::Map(m), KValue::Str(p)]) => m.remove_path(p.as_str()).unwrap_or(KValue::Null),
+        ("get", [KValue::Map(m), k]) => match k {
+            // the `&str` flavour of the lookup for string keys, `&ValueKey` otherwise
+            KValue::Str(s) => m.get(s.as_str()).unwrap_or(KValue::Null),
+            k => m.get(&key(k)?).unwrap_or(KValue::Null),
+        },
+        ("len", [KValue::Map(m)]) => KValue::Number((m.len() as i64).into()),
+        ("len", [KValue::List(l)]) => KValue::Number((l.len() as i64).into()),
+        ("clear", [KValue::Map(m)]) => {
+            let mut m = m.clone();
+            m.clear();
+            KValue::Null
+        }
+        ("slice", [KValue::Map(m), x, y]) => match (host_index(x), host_index(y)) {
+            (Some(x), Some(y)) if x <= y => match m.data().make_data_slice(x..y) {
+                Some(d) => KValue::Map(KMap::with_data(d)),
+                None => KValue::Null,
+            },
+            _ => KValue::Null,
+        },
+        ("keys", [KValue::Map(m)]) => {
+            let ks: Vec<KValue> = m.data().keys().map(|k| k.value().clone()).collect();
+            KValue::Tuple(ks.into())
+        }
+        ("push", [KValue::List(l), v]) => {
+            l.data_mut().push(v.clone());
+            KValue::Null
+        }
+        ("subtuple", [KValue::Tuple(t), x, y]) => match (host_index(x), host_index(y)) {
+            (Some(x), Some(y)) if x <= y => t.make_sub_tuple(x..y).map(KValue::Tuple).unwrap_or(KValue::Null),
+            _ => KValue::Null,
+        },
+        ("pop_front", [KValue::Tuple(t)]) => {
+            let mut t = t.clone();
+            match t.pop_front() {
+                Some(v) => KValue::Tuple(vec![v, KValue::Tuple(t)].into()),
+                None => KValue::Null,
+            }
+        }
+        ("pop_back", [KValue::Tuple(t)]) => {
+            let mut t = t.clone();
+            match t.pop_back() {
+                Some(v) => KValue::Tuple(vec![v, KValue::Tuple(t)].into()),
+                None => KValue::Null,
+            }
+        }
+        _ => return runtime_error!("kv_host: unknown operation or arguments"),
+    })
 }
